@@ -3,7 +3,7 @@ import Abasic.Proofs.Prims
 /-
   C03, third layer — the statement evaluator on the statements of Ref/Stmt3.lean.
 
-  Part 5: READ, DIM, assignment to an array cell.
+  Part 5: DIM, assignment to an array cell, READ (scalar and cell targets).
 -/
 set_option linter.unusedSectionVars false
 
@@ -14,7 +14,7 @@ open Abasic.Stmt2L (accept_end optionalArrayIndex_none' coerce_matches coerce_er
 
 variable {F : Type} [NumOps F]
 
-/-! ### READ -/
+/-! ### READ: one scalar target -/
 
 theorem stmtEnd_not {rest : List (Token F)} (h : StmtEnd rest) {k : Kw} (hk : k ≠ .Colon) (hk' : k ≠ .Else) :
     ∀ t, rest.head? = some t → t.isKw k = false := by
@@ -96,185 +96,9 @@ theorem read_one3 {p : RProgram3 F} (hwf : p.WF) (ev : Evals F) (t : Str) (σ : 
       rw [bind_ok (pure_eq v _), bind_ok hset]
       rfl
 
-/-- the result of a READ against the run of `readLoop` -/
-def ReadOK3 (p : RProgram3 F) (σ : St F) (len : Nat) (res : Res F Unit) :
-    List (Str × Value F) × Nat × Ctl2 → Prop
-  | (vars, c, .next) => ∃ it' rr, res = .ok ()
-        { σ with vars := vars, data := some it', loc := { σ.loc with idx := σ.loc.idx + len }, reads := rr } ∧
-      DataRel3 p c (some it')
-  | (_, _, .error e) => e = .outOfData ∧ ∃ σ', res = .err { err := e } σ' ∧ σ'.loc.line = σ.loc.line ∧ σ'.out = σ.out ∧ σ'.nesting = σ.nesting
-  | (_, _, .errorAt e ln) => e = .dataTypeMismatch ∧
-      ∃ σ' i, res = .err { err := e } σ' ∧ σ'.dataLoc = some { line := some ln, idx := i } ∧ σ'.out = σ.out ∧ σ'.nesting = σ.nesting
-  | _ => True
-
-theorem readOK3_eq {p : RProgram3 F} {σ : St F} {len : Nat} {res res' : Res F Unit}
-    {x : List (Str × Value F) × Nat × Ctl2} (h : ReadOK3 p σ len res x) (he : res' = res) : ReadOK3 p σ len res' x := by
-  subst he; exact h
-
-theorem readLoop3_run {p : RProgram3 F} (hwf : p.WF) (ev : Evals F) (rest : List (Token F)) (hLE : StmtEnd rest) :
-    ∀ (ts : List Str), ts ≠ [] → ∀ (k : Nat) (σ : St F) (pre : List (Token F)) (vars : List (Str × Value F)) (c : Nat),
-      At σ pre (renderTargets ts ++ rest) → Holds σ.lines p → σ.vars = vars → DataRel3 p c σ.data →
-      (renderTargets (F := F) ts).length < k →
-      ReadOK3 p σ (renderTargets (F := F) ts).length (readLoop ev k σ) (readAll (allData3 p) ts vars c) := by
-  intro ts
-  induction ts with
-  | nil => intro h; exact absurd rfl h
-  | cons t ts' ih =>
-    intro _ k σ pre vars c hAt hh hv hd hk
-    obtain ⟨k', rfl⟩ : ∃ k', k = k' + 1 := ⟨k - 1, by omega⟩
-    rw [readLoop_unfold]
-    cases ts' with
-    | nil =>
-      have hAt0 : At σ pre (.symbol t :: rest) := hAt
-      have hO := read_one3 hwf ev t σ pre rest c hAt0 (stmtEnd_not hLE (by decide) (by decide)) hh hd
-        (accept .Comma >>= fun b => if b then readLoop ev k' else pure ())
-      cases hc : (allData3 p)[c]? with
-      | none =>
-        rw [hc] at hO
-        have hr : readAll (allData3 p) [t] vars c = (vars, c, .error .outOfData) := by
-          simp only [readAll, hc]
-        rw [hr]
-        exact ⟨rfl, hO⟩
-      | some lnd =>
-        obtain ⟨ln, d⟩ := lnd
-        rw [hc] at hO
-        dsimp only at hO
-        cases hco : Value.coerceFromData t d with
-        | error e =>
-          rw [hco] at hO
-          have hr : readAll (allData3 p) [t] vars c = (vars, c + 1, .errorAt e ln) := by
-            simp only [readAll, hc, hco]
-          rw [hr]
-          exact ⟨coerce_err hco, hO⟩
-        | ok v =>
-          rw [hco] at hO
-          obtain ⟨it', σ1, hrel, hrun, hσ1⟩ := hO
-          have hr : readAll (allData3 p) [t] vars c = (alSet t v vars, c + 1, .next) := by
-            simp only [readAll, hc, hco]
-          rw [hr]
-          refine readOK3_eq ?_ hrun
-          have hAtb : At ({ σ with data := some it', vars := alSet t v σ.vars } : St F) pre (.symbol t :: rest) :=
-            ⟨hAt0.1, hAt0.2⟩
-          have hAt1 : At σ1 (pre ++ [.symbol t]) rest := by rw [hσ1]; exact at_mv1 hAtb (σ.reads + 1 + 1)
-          rw [bind_ok (accept_end hAt1 (stmtEnd_not hLE (by decide) (by decide)))]
-          refine ⟨it', σ1.reads + 1, ?_, hrel⟩
-          simp only [Bool.false_eq_true, ↓reduceIte, pure_eq, hσ1, mv, hv, renderTargets, List.length_cons,
-            List.length_nil]
-    | cons t' ts'' =>
-      have hAt0 : At σ pre (.symbol t :: .kw .Comma :: (renderTargets (t' :: ts'') ++ rest)) := by
-        simpa only [renderTargets, List.cons_append] using hAt
-      have hlen : (renderTargets (F := F) (t :: t' :: ts'')).length = (renderTargets (F := F) (t' :: ts'')).length + 2 := by
-        simp only [renderTargets, List.length_cons]
-      have hO := read_one3 hwf ev t σ pre _ c hAt0 (by intro t0 ht0; simp only [List.head?_cons, Option.some.injEq] at ht0; subst ht0; rfl) hh hd
-        (accept .Comma >>= fun b => if b then readLoop ev k' else pure ())
-      cases hc : (allData3 p)[c]? with
-      | none =>
-        rw [hc] at hO
-        have hr : readAll (allData3 p) (t :: t' :: ts'') vars c = (vars, c, .error .outOfData) := by
-          simp only [readAll, hc]
-        rw [hr]
-        exact ⟨rfl, hO⟩
-      | some lnd =>
-        obtain ⟨ln, d⟩ := lnd
-        rw [hc] at hO
-        dsimp only at hO
-        cases hco : Value.coerceFromData t d with
-        | error e =>
-          rw [hco] at hO
-          have hr : readAll (allData3 p) (t :: t' :: ts'') vars c = (vars, c + 1, .errorAt e ln) := by
-            simp only [readAll, hc, hco]
-          rw [hr]
-          exact ⟨coerce_err hco, hO⟩
-        | ok v =>
-          rw [hco] at hO
-          obtain ⟨it', σ1, hrel, hrun, hσ1⟩ := hO
-          have hr : readAll (allData3 p) (t :: t' :: ts'') vars c =
-              readAll (allData3 p) (t' :: ts'') (alSet t v vars) (c + 1) := by
-            simp only [readAll, hc, hco]
-          rw [hr]
-          refine readOK3_eq ?_ hrun
-          have hAtb : At ({ σ with data := some it', vars := alSet t v σ.vars } : St F) pre
-              (.symbol t :: .kw .Comma :: (renderTargets (t' :: ts'') ++ rest)) := ⟨hAt0.1, hAt0.2⟩
-          have hAt1 : At σ1 (pre ++ [.symbol t]) (.kw .Comma :: (renderTargets (t' :: ts'') ++ rest)) := by
-            rw [hσ1]; exact at_mv1 hAtb (σ.reads + 1 + 1)
-          rw [bind_ok (accept_true hAt1 rfl)]
-          simp only [↓reduceIte]
-          have hAt2 := at_mv1 hAt1 (σ1.reads + 1)
-          have hI := ih (by simp) k' _ _ (alSet t v vars) (c + 1) hAt2 (by rw [hσ1]; exact hh)
-            (by rw [hσ1]; show alSet t v σ.vars = _; rw [hv])
-            (by rw [hσ1]; exact hrel) (by rw [hlen] at hk; omega)
-          generalize readAll (allData3 p) (t' :: ts'') (alSet t v vars) (c + 1) = res at hI ⊢
-          obtain ⟨vars', c', ctl⟩ := res
-          cases ctl with
-          | next =>
-            obtain ⟨it'', rr, hres, hrel'⟩ := hI
-            refine ⟨it'', rr, ?_, hrel'⟩
-            rw [hres, hlen, hσ1]
-            simp only [mv]
-            congr 3
-            omega
-          | error e =>
-            obtain ⟨he, σ', hres, hl, ho, hnn⟩ := hI
-            exact ⟨he, σ', hres, by rw [hl, hσ1]; rfl, by rw [ho, hσ1]; rfl, by rw [hnn, hσ1]; rfl⟩
-          | errorAt e ln' =>
-            obtain ⟨he, σ', i, hres, hdl, ho, hnn⟩ := hI
-            exact ⟨he, σ', i, hres, hdl, by rw [ho, hσ1]; rfl, by rw [hnn, hσ1]; rfl⟩
-          | skipLine => trivial
-          | jump m => trivial
-          | stop => trivial
-          | resume a b => trivial
-
 
 section stmts
 variable {p : RProgram3 F} {n j : Nat}
-
-theorem read_ok (ts : List Str) : StmtOK p n j (.readS ts) := by
-  intro fuel σ r pre rest after eol hS hP hE _ hcov _ _ _
-  have hAt0 : At σ pre (.kw .Read :: (renderTargets ts ++ rest)) := by
-    simpa only [renderS3, List.cons_append] using hP.cur
-  obtain ⟨k1, h1⟩ := next_ex hAt0
-  have hAt1 := at_mv1 hAt0 k1
-  have hst : Start σ (mv σ 1 k1) := start_mv _ _ _
-  have hrun : stmtBody (evalN fuel) σ =
-      readLoop (evalN fuel) ((pre ++ [Token.kw Kw.Read] ++ (renderTargets ts ++ rest)).length + 1) (mv σ 1 k1) := by
-    unfold stmtBody
-    rw [bind_ok (traceHere_off hS.env.tracing)]
-    unfold dispatch
-    rw [bind_ok h1]
-    show readStatement (evalN fuel) _ = _
-    unfold readStatement
-    rw [bind_ok (lineBudget_eq hAt1.1)]
-  rw [hrun]
-  have hL := readLoop3_run hS.wf (evalN fuel) rest hE.stmtEnd ts hcov
-    ((pre ++ [Token.kw Kw.Read] ++ (renderTargets ts ++ rest)).length + 1)
-    (mv σ 1 k1) _ r.vars r.data hAt1 hS.env.lines hS.mem.vars hS.mem.data (by simp only [List.length_append]; omega)
-  show Outcome3 p σ n _ _ _
-    { r with vars := (readAll (allData3 p) ts r.vars r.data).1, data := (readAll (allData3 p) ts r.vars r.data).2.1 }
-    (readAll (allData3 p) ts r.vars r.data).2.2
-  have hctl := readAll_ctl (allData3 p) ts r.vars r.data
-  generalize readAll (allData3 p) ts r.vars r.data = res at hL hctl
-  obtain ⟨vars', c', ctl⟩ := res
-  have hM := hS.mem
-  cases ctl with
-  | next =>
-    obtain ⟨it', rr, hres, hrel⟩ := hL
-    refine ⟨_, hres, ⟨rfl, rfl, rfl, rfl, rfl⟩, ?_, hP.locline, Or.inl ?_⟩
-    · exact { vars := rfl, arrays := hM.arrays, rng := hM.rng, loops := hM.loops, stack := hM.stack
-              data := hrel, out := hM.out, fns := ⟨hM.fns.undef, hM.fns.defd⟩, fnLines := hM.fnLines }
-    · show σ.loc.idx + 1 + _ = after
-      rw [hP.hafter, hP.cur.2]
-      simp only [renderS3, List.length_cons]
-      omega
-  | error e =>
-    obtain ⟨he, σ', hres, hl, ho, hnn⟩ := hL
-    exact ⟨by rw [he]; simp, ErrFrom.start (σ1 := mv σ 1 k1) ⟨{ err := e }, σ', hres, rfl, ho, hl, hnn, Or.inl rfl⟩ hst⟩
-  | errorAt e ln =>
-    obtain ⟨he, σ', i, hres, hdl, ho, hnn⟩ := hL
-    exact ⟨he, σ', i, hres, hdl, ho, hnn⟩
-  | skipLine => rcases hctl with h | ⟨_, h⟩ | ⟨_, _, h⟩ <;> cases h
-  | jump m => rcases hctl with h | ⟨_, h⟩ | ⟨_, _, h⟩ <;> cases h
-  | stop => rcases hctl with h | ⟨_, h⟩ | ⟨_, _, h⟩ <;> cases h
-  | resume a b => rcases hctl with h | ⟨_, h⟩ | ⟨_, _, h⟩ <;> cases h
 
 /-! ### an array name and its subscripts -/
 
@@ -490,6 +314,490 @@ theorem letCell_ok (name : Str) (idx : List (Expr2 F)) (e : Expr2 F) : StmtOK p 
           exact (idx_after hP.cur hAt' (by
             show lineToks τ = lineToks σ; exact lineToks_start (hst2.trans hstτ) hP.locline)).trans (by
             simp only [renderS3, List.length_cons, List.length_append])
+
+/-! ### READ
+
+  READ OFF THE CODE (`readLoop`, Stmt.lean): for each target, in this order,
+    1. the target is parsed — `parseLValue`: the name and, behind `(`, the
+       subscripts, which are EVALUATED NOW;
+    2. the next DATA item is consumed (OUT OF DATA when there is none);
+    3. the item is coerced to the kind of the target's NAME;
+    4. the value is stored — `assignValue`, the same store as LET.
+  `readCellSpec` / `readScalarSpec` / `readTargetsSpec` (Ref/Stmt3.lean) are that. -/
+
+/-- one round of the READ loop, with what follows it as a parameter -/
+def readBody (ev : Evals F) (K : M F Unit) : M F Unit := do
+  let lv ← parseLValue ev
+  match ← nextDataElement with
+  | none => fail .outOfData
+  | some e =>
+    let v ← liftE (Value.coerceFromData lv.name e)
+    assignValue lv v
+    K
+
+theorem readLoop_body (ev : Evals F) (k : Nat) :
+    readLoop ev (k + 1) = readBody ev (accept .Comma >>= fun b => if b then readLoop ev k else pure ()) := rfl
+
+/-- a run of a READ round from `σ` against the spec's result; on success the run
+    continues with `K` in a state `τ` in `Sync` with the new reference state, the
+    cursor behind the target -/
+def ReadCellOK (p : RProgram3 F) (σ : St F) (pre tgt rest : List (Token F)) (K : M F Unit) (res : Res F Unit) :
+    RState3 F × Ctl2 → Prop
+  | (r', .next) => ∃ τ, res = K τ ∧ Sync p r' τ ∧ Start σ τ ∧ At τ (pre ++ tgt) rest
+  | (_, .error e) => e ≠ .dataTypeMismatch ∧ ErrFrom σ e res
+  | (_, .errorAt e ln) => e = .dataTypeMismatch ∧
+      ∃ σ' i, res = .err { err := e } σ' ∧ σ'.dataLoc = some { line := some ln, idx := i } ∧ σ'.out = σ.out ∧
+        σ'.nesting = σ.nesting
+  | _ => True
+
+theorem start_data {σ τ : St F} (h : Start σ τ) (d : Option (DataIter F)) : Start σ { τ with data := d } :=
+  ⟨⟨h.kept.lines, h.kept.warnings, h.kept.tracing, h.kept.nesting, h.kept.state⟩, h.out, h.fns, h.line⟩
+
+/-- **read_cell_refines.**  One cell target `name(idx…)` of a READ: the model's
+    READ round is `readCellSpec` — subscripts first, then the item, the
+    coercion by the name, the store of LET with auto-dimension. -/
+theorem read_cell_refines {p : RProgram3 F} {σ : St F} {r : RState3 F} (hS : Sync p r σ) (fuel : Nat)
+    (name : Str) (idx : List (Expr2 F)) (pre rest : List (Token F))
+    (hres : ResolvedL r.fns idx) (hd : depthArgs r.fns callFuel idx ≤ fuel)
+    (hn : σ.nesting + depthArgs r.fns callFuel idx ≤ Extracted.nestingLimit)
+    (hAt : At σ pre (.symbol name :: .kw .LeftParen :: (renderArgs idx ++ (.kw .RightParen :: rest))))
+    (K : M F Unit) :
+    ReadCellOK p σ pre (cellToks name idx) rest K (readBody (evalN fuel) K σ)
+      (readCellSpec (allData3 p) r name idx) := by
+  have hAt1 := at_mv1 hAt (σ.reads + 1)
+  have hst1 : Start σ (mv σ 1 (σ.reads + 1)) := start_mv _ _ _
+  have hrun : readBody (evalN fuel) K σ =
+      (optionalArrayIndex (evalN fuel) >>= fun ix =>
+        (nextDataElement >>= fun o =>
+          match o with
+          | none => fail .outOfData
+          | some e =>
+            liftE (Value.coerceFromData name e) >>= fun v =>
+              assignValue { name := name, index := ix } v >>= fun _ => K)) (mv σ 1 (σ.reads + 1)) := by
+    unfold readBody parseLValue
+    rw [bind_assoc', bind_ok (next_eq hAt)]
+    show ((optionalArrayIndex (evalN fuel) >>= fun ix => pure ({ name := name, index := ix } : LValue)) >>= _) _ = _
+    rw [bind_assoc']
+    rfl
+  rw [hrun]
+  have hO := optIdx3_run (hS.mv 1 (σ.reads + 1)) idx fuel _ rest hres hd hn hAt1
+  cases hev : foldIdx callFuel r.env idx with
+  | error err =>
+    rw [hev] at hO
+    have hsp : readCellSpec (allData3 p) r name idx = (r, .error err) := by
+      simp only [readCellSpec, evalIdx, hev]
+    rw [hsp]
+    exact ⟨hO.1, (hO.2.bind).start hst1⟩
+  | ok q =>
+    obtain ⟨is, env'⟩ := q
+    rw [hev] at hO
+    obtain ⟨τ, hσ1, hSτ, hstτ, hAtτ, harr⟩ := hO
+    rw [bind_ok hσ1]
+    have hst : Start σ τ := hst1.trans hstτ
+    have hM := hSτ.mem
+    have hdat : DataRel3 p r.data τ.data := hM.data
+    cases hc : (allData3 p)[r.data]? with
+    | none =>
+      obtain ⟨it', hnd⟩ := nextData_none hSτ.env.lines hSτ.wf hdat hc
+      have hsp : readCellSpec (allData3 p) r name idx = (r.put env', .error .outOfData) := by
+        simp only [readCellSpec, evalIdx, hev, RState3.put, hc]
+      rw [hsp, bind_ok hnd]
+      exact ⟨by simp, errFrom_at (start_data hst _) rfl⟩
+    | some lnd =>
+      obtain ⟨ln, d⟩ := lnd
+      obtain ⟨it', i, hnd, hrel, hdl⟩ := nextData_some hSτ.env.lines hSτ.wf hdat hc
+      rw [bind_ok hnd]
+      dsimp only
+      cases hco : Value.coerceFromData name d with
+      | error e =>
+        have hsp : readCellSpec (allData3 p) r name idx =
+            ({ r.put env' with data := r.data + 1 }, .errorAt e ln) := by
+          simp only [readCellSpec, evalIdx, hev, RState3.put, hc, hco]
+        rw [hsp]
+        refine ⟨coerce_err hco, _, i, ?_, hdl, hst.out, hst.kept.nesting⟩
+        simp only [liftE]
+        rfl
+      | ok v =>
+        have hm := coerce_matches hco
+        simp only [liftE]
+        show ReadCellOK p σ pre _ rest K
+          ((assignValue { name := name, index := some is } v >>= fun _ => K) ({ τ with data := some it' } : St F)) _
+        have hav : assignValue (F := F) { name := name, index := some is } v ({ τ with data := some it' } : St F) =
+            arraySet name is v ({ τ with data := some it' } : St F) := by
+          show (warnUndeclaredArray name >>= fun _ => arraySet name is v) _ = _
+          rw [bind_ok (Stmt2L.warnUndeclared_off name ({ τ with data := some it' } : St F) hSτ.env.warnings)]
+        have hA := Stmt2L.arraySet_run name is v ({ τ with data := some it' } : St F)
+          (by intro k a hk
+              have hk' : alGet k τ.arrays = some a := hk
+              rw [hM.arrays] at hk'
+              exact hSτ.inv.arrs k a hk')
+        have hcsτ : ∀ x, storeCell name is v env'.arrays = x →
+            Stmt2L.cellStore name is v ({ τ with data := some it' } : St F).arrays = x := by
+          intro x hx
+          rw [← storeCell_eq]
+          show storeCell name is v τ.arrays = x
+          rw [harr]; exact hx
+        cases hcs : storeCell name is v env'.arrays with
+        | error err =>
+          rw [hcsτ _ hcs] at hA
+          obtain ⟨hnd', σ', hσ', hl, ho⟩ := hA
+          have hsp : readCellSpec (allData3 p) r name idx =
+              ({ r.put env' with data := r.data + 1 }, .error err) := by
+            simp only [readCellSpec, evalIdx, hev, RState3.put, hc, hco, hcs]
+          rw [hsp]
+          have hnn := (((rns_arraySet name is v).at _).2 _ _ hσ').1
+          refine ⟨hnd', ErrFrom.start (σ1 := ({ τ with data := some it' } : St F)) ?_ (start_data hst _)⟩
+          refine ⟨{ err := err }, σ', ?_, rfl, ho, by rw [hl], hnn, Or.inl rfl⟩
+          exact bind_err (hav.trans hσ')
+        | ok arrs =>
+          rw [hcsτ _ hcs] at hA
+          have hsp : readCellSpec (allData3 p) r name idx =
+              ({ r.put env' with data := r.data + 1, arrays := arrs }, .next) := by
+            simp only [readCellSpec, evalIdx, hev, RState3.put, hc, hco, hcs]
+          rw [hsp]
+          refine ⟨{ τ with data := some it', arrays := arrs }, ?_, ?_, ?_, ?_⟩
+          · exact bind_ok (hav.trans hA)
+          · exact {
+              wf := hSτ.wf
+              env := ⟨hSτ.env.lines, hSτ.env.warnings, hSτ.env.tracing⟩
+              mem := { vars := hM.vars, arrays := rfl, rng := hM.rng, loops := hM.loops, stack := hM.stack
+                       data := hrel, out := hM.out, fns := ⟨hM.fns.undef, hM.fns.defd⟩, fnLines := hM.fnLines }
+              inv := ⟨hSτ.inv.typed, Stmt2L.cellStore_ok (by rw [← storeCell_eq]; exact hcs) hSτ.inv.arrs,
+                      hSτ.inv.rng, hSτ.inv.rets⟩
+              bodies := hSτ.bodies }
+          · exact ⟨⟨hst.kept.lines, hst.kept.warnings, hst.kept.tracing, hst.kept.nesting, hst.kept.state⟩,
+              hst.out, hst.fns, hst.line⟩
+          · have : At ({ τ with data := some it', arrays := arrs } : St F)
+                (pre ++ [.symbol name] ++ (.kw .LeftParen :: (renderArgs idx ++ [.kw .RightParen]))) rest :=
+              ⟨hAtτ.1, hAtτ.2⟩
+            simpa only [cellToks, List.append_assoc, List.cons_append, List.nil_append] using this
+
+
+/-- the control results `readCellSpec` can produce -/
+theorem readCellSpec_ctl (items : List (Nat × DataElement F)) (r : RState3 F) (name : Str) (idx : List (Expr2 F)) :
+    (readCellSpec items r name idx).2 = .next ∨ (∃ e, (readCellSpec items r name idx).2 = .error e) ∨
+      ∃ e ln, (readCellSpec items r name idx).2 = .errorAt e ln := by
+  unfold readCellSpec
+  cases evalIdx r idx with
+  | error err => exact Or.inr (Or.inl ⟨err, rfl⟩)
+  | ok q =>
+    obtain ⟨index, r1⟩ := q
+    dsimp only
+    cases items[r1.data]? with
+    | none => exact Or.inr (Or.inl ⟨_, rfl⟩)
+    | some lnd =>
+      obtain ⟨ln, d⟩ := lnd
+      dsimp only
+      cases Value.coerceFromData name d with
+      | error e => exact Or.inr (Or.inr ⟨e, ln, rfl⟩)
+      | ok v =>
+        dsimp only
+        cases storeCell name index v r1.arrays with
+        | error err => exact Or.inr (Or.inl ⟨err, rfl⟩)
+        | ok arrs => exact Or.inl rfl
+
+
+/-- the side conditions of a target: the subscripts of a cell use names
+    consistently with the function table and fit fuel and nesting cap -/
+def TargetOK (fns : List (Str × FnDefSpec F)) (fuel nesting : Nat) : RTarget F → Prop
+  | .scalar _ => True
+  | .cell _ idx => ResolvedL fns idx ∧ depthArgs fns callFuel idx ≤ fuel ∧
+      nesting + depthArgs fns callFuel idx ≤ Extracted.nestingLimit
+
+theorem readTargetSpec_fns (items : List (Nat × DataElement F)) (r : RState3 F) (t : RTarget F) :
+    (readTargetSpec items r t).1.fns = r.fns := by
+  cases t with
+  | scalar x =>
+    simp only [readTargetSpec, readScalarSpec]
+    cases items[r.data]? with
+    | none => rfl
+    | some lnd =>
+      obtain ⟨ln, d⟩ := lnd
+      dsimp only
+      cases Value.coerceFromData x d <;> rfl
+  | cell name idx =>
+    simp only [readTargetSpec, readCellSpec, evalIdx]
+    cases foldIdx callFuel r.env idx with
+    | error err => rfl
+    | ok q =>
+      obtain ⟨index, env'⟩ := q
+      dsimp only
+      cases items[(r.put env').data]? with
+      | none => rfl
+      | some lnd =>
+        obtain ⟨ln, d⟩ := lnd
+        dsimp only
+        cases Value.coerceFromData name d with
+        | error e => rfl
+        | ok v =>
+          dsimp only
+          cases storeCell name index v (r.put env').arrays <;> rfl
+
+/-- one target, scalar or cell -/
+theorem read_target_refines {p : RProgram3 F} {σ : St F} {r : RState3 F} (hS : Sync p r σ) (fuel : Nat)
+    (t : RTarget F) (pre rest : List (Token F)) (hok : TargetOK r.fns fuel σ.nesting t)
+    (hAt : At σ pre (t.toks ++ rest)) (hpost : ∀ t', rest.head? = some t' → t'.isKw .LeftParen = false)
+    (K : M F Unit) :
+    ReadCellOK p σ pre t.toks rest K (readBody (evalN fuel) K σ) (readTargetSpec (allData3 p) r t) := by
+  cases t with
+  | cell name idx =>
+    have hAt' : At σ pre (.symbol name :: .kw .LeftParen :: (renderArgs idx ++ (.kw .RightParen :: rest))) := by
+      simpa only [RTarget.toks, cellToks, List.cons_append, List.append_assoc, List.nil_append] using hAt
+    exact read_cell_refines hS fuel name idx pre rest hok.1 hok.2.1 hok.2.2 hAt' K
+  | scalar x =>
+    have hAt' : At σ pre (.symbol x :: rest) := hAt
+    have hM := hS.mem
+    have hO := read_one3 hS.wf (evalN fuel) x σ pre rest r.data hAt' hpost hS.env.lines hM.data K
+    show ReadCellOK p σ pre [.symbol x] rest K _ (readScalarSpec (allData3 p) r x)
+    unfold readScalarSpec
+    cases hc : (allData3 p)[r.data]? with
+    | none =>
+      rw [hc] at hO
+      obtain ⟨σ', hr, hl, ho, hnn⟩ := hO
+      exact ⟨by simp, { err := .outOfData }, σ', hr, rfl, ho, hl, hnn, Or.inl rfl⟩
+    | some lnd =>
+      obtain ⟨ln, d⟩ := lnd
+      rw [hc] at hO
+      dsimp only at hO ⊢
+      cases hco : Value.coerceFromData x d with
+      | error e =>
+        rw [hco] at hO
+        exact ⟨coerce_err hco, hO⟩
+      | ok v =>
+        rw [hco] at hO
+        obtain ⟨it', σ1, hrel, hrun, hσ1⟩ := hO
+        have hm := coerce_matches hco
+        refine ⟨σ1, hrun, ?_, ?_, ?_⟩
+        · rw [hσ1]
+          exact {
+            wf := hS.wf
+            env := ⟨hS.env.lines, hS.env.warnings, hS.env.tracing⟩
+            mem := { vars := by show alSet x v σ.vars = alSet x v r.vars; rw [hM.vars]
+                     arrays := hM.arrays, rng := hM.rng, loops := hM.loops, stack := hM.stack
+                     data := hrel, out := hM.out, fns := ⟨hM.fns.undef, hM.fns.defd⟩, fnLines := hM.fnLines }
+            inv := ⟨Stmt2L.typed_alSet hS.inv.typed hm, hS.inv.arrs, hS.inv.rng, hS.inv.rets⟩
+            bodies := hS.bodies }
+        · rw [hσ1]; exact ⟨⟨rfl, rfl, rfl, rfl, rfl⟩, rfl, rfl, rfl⟩
+        · rw [hσ1]
+          have hAtb : At ({ σ with data := some it', vars := alSet x v σ.vars } : St F) pre (.symbol x :: rest) :=
+            ⟨hAt'.1, hAt'.2⟩
+          exact at_mv1 hAtb _
+
+theorem toks_head_ne_paren (_t : RTarget F) (tl : List (Token F)) :
+    ∀ t', (Token.kw (F := F) .Comma :: tl).head? = some t' → t'.isKw .LeftParen = false := by
+  intro t' ht'
+  simp only [List.head?_cons, Option.some.injEq] at ht'
+  subst ht'
+  rfl
+
+/-- **read_targets_refines.**  The READ loop over a non-empty list of targets —
+    scalars and array cells in any mixture — is `readTargetsSpec`: the targets in
+    order, each one as `readScalarSpec` / `readCellSpec` says, the first failure
+    ending the statement. -/
+theorem read_targets_refines {p : RProgram3 F} (fuel : Nat) (rest : List (Token F)) (hE : StmtEnd rest) :
+    ∀ (ts : List (RTarget F)), ts ≠ [] → ∀ (k : Nat) (σ : St F) (r : RState3 F) (pre : List (Token F)),
+      Sync p r σ → (∀ t ∈ ts, TargetOK r.fns fuel σ.nesting t) → At σ pre (renderRTargets ts ++ rest) →
+      (renderRTargets ts).length < k →
+      ReadCellOK p σ pre (renderRTargets ts) rest (pure ()) (readLoop (evalN fuel) k σ)
+        (readTargetsSpec (allData3 p) r ts) := by
+  intro ts
+  induction ts with
+  | nil => intro h; exact absurd rfl h
+  | cons t ts' ih =>
+    intro _ k σ r pre hS hok hAt hk
+    obtain ⟨k', rfl⟩ : ∃ k', k = k' + 1 := ⟨k - 1, by omega⟩
+    rw [readLoop_body]
+    have hokt := hok t List.mem_cons_self
+    cases ts' with
+    | nil =>
+      have hAt0 : At σ pre (t.toks ++ rest) := hAt
+      have hO := read_target_refines hS fuel t pre rest hokt hAt0
+        (Stmt3L.stmtEnd_not hE (by decide) (by decide))
+        (accept .Comma >>= fun b => if b then readLoop (evalN fuel) k' else pure ())
+      have hsp : readTargetsSpec (allData3 p) r [t] =
+          match readTargetSpec (allData3 p) r t with
+          | (r', .next) => (r', .next)
+          | x => x := rfl
+      rw [hsp]
+      generalize readTargetSpec (allData3 p) r t = res at hO
+      obtain ⟨r', ctl⟩ := res
+      cases ctl with
+      | next =>
+        obtain ⟨τ, hres, hSτ, hstτ, hAtτ⟩ := hO
+        have hacc := accept_end (k := .Comma) hAtτ (Stmt3L.stmtEnd_not hE (by decide) (by decide))
+        refine ⟨mv τ 0 (τ.reads + 1), ?_, hSτ.mv 0 _, hstτ.trans (start_mv _ _ _), at_mv0 hAtτ _⟩
+        rw [hres, bind_ok hacc]
+        rfl
+      | error e => exact hO
+      | errorAt e ln => exact hO
+      | skipLine => trivial
+      | jump m => trivial
+      | stop => trivial
+      | resume a b => trivial
+    | cons t' ts'' =>
+      have hAt0 : At σ pre (t.toks ++ (.kw .Comma :: (renderRTargets (t' :: ts'') ++ rest))) := by
+        simpa only [renderRTargets, List.append_assoc, List.cons_append] using hAt
+      have hlen : (renderRTargets (t :: t' :: ts'')).length =
+          t.toks.length + 1 + (renderRTargets (t' :: ts'')).length := by
+        simp only [renderRTargets, List.length_append, List.length_cons]
+        omega
+      have hO := read_target_refines hS fuel t pre _ hokt hAt0 (toks_head_ne_paren t _)
+        (accept .Comma >>= fun b => if b then readLoop (evalN fuel) k' else pure ())
+      have hfns := readTargetSpec_fns (allData3 p) r t
+      have hsp : readTargetsSpec (allData3 p) r (t :: t' :: ts'') =
+          match readTargetSpec (allData3 p) r t with
+          | (r', .next) => readTargetsSpec (allData3 p) r' (t' :: ts'')
+          | x => x := rfl
+      rw [hsp]
+      generalize readTargetSpec (allData3 p) r t = res at hO hfns
+      obtain ⟨r', ctl⟩ := res
+      cases ctl with
+      | next =>
+        obtain ⟨τ, hres, hSτ, hstτ, hAtτ⟩ := hO
+        have hacc := accept_true (k := .Comma) hAtτ rfl
+        have hAt2 := at_mv1 hAtτ (τ.reads + 1)
+        have hst2 : Start σ (mv τ 1 (τ.reads + 1)) := hstτ.trans (start_mv _ _ _)
+        have hfns' : r'.fns = r.fns := hfns
+        have hI := ih (by simp) k' (mv τ 1 (τ.reads + 1)) r' _ (hSτ.mv 1 _)
+          (fun x hx => by
+            have := hok x (List.mem_cons_of_mem _ hx)
+            rw [hfns']
+            have hnn : (mv τ 1 (τ.reads + 1)).nesting = σ.nesting := hst2.kept.nesting
+            rw [hnn]; exact this)
+          hAt2 (by rw [hlen] at hk; omega)
+        have hrun : readBody (evalN fuel)
+            (accept .Comma >>= fun b => if b then readLoop (evalN fuel) k' else pure ()) σ =
+            readLoop (evalN fuel) k' (mv τ 1 (τ.reads + 1)) := by
+          rw [hres, bind_ok hacc]
+          rfl
+        rw [hrun]
+        dsimp only
+        generalize readTargetsSpec (allData3 p) r' (t' :: ts'') = res2 at hI ⊢
+        obtain ⟨r'', ctl2⟩ := res2
+        cases ctl2 with
+        | next =>
+          obtain ⟨τ2, hres2, hS2, hst3, hAt3⟩ := hI
+          refine ⟨τ2, hres2, hS2, hst2.trans hst3, ?_⟩
+          simpa only [renderRTargets, List.append_assoc, List.cons_append, List.nil_append] using hAt3
+        | error e => exact ⟨hI.1, hI.2.start hst2⟩
+        | errorAt e ln =>
+          obtain ⟨he, σ', i, h1, h2, h3, h4⟩ := hI
+          exact ⟨he, σ', i, h1, h2, h3.trans hst2.out, h4.trans hst2.kept.nesting⟩
+        | skipLine => trivial
+        | jump m => trivial
+        | stop => trivial
+        | resume a b => trivial
+      | error e => exact hO
+      | errorAt e ln => exact hO
+      | skipLine => trivial
+      | jump m => trivial
+      | stop => trivial
+      | resume a b => trivial
+
+/-! ### the READ statement -/
+
+theorem readScalarSpec_ctl (items : List (Nat × DataElement F)) (r : RState3 F) (name : Str) :
+    (readScalarSpec items r name).2 = .next ∨ (∃ e, (readScalarSpec items r name).2 = .error e) ∨
+      ∃ e ln, (readScalarSpec items r name).2 = .errorAt e ln := by
+  unfold readScalarSpec
+  cases items[r.data]? with
+  | none => exact Or.inr (Or.inl ⟨_, rfl⟩)
+  | some lnd =>
+    obtain ⟨ln, d⟩ := lnd
+    dsimp only
+    cases Value.coerceFromData name d with
+    | error e => exact Or.inr (Or.inr ⟨e, ln, rfl⟩)
+    | ok v => exact Or.inl rfl
+
+theorem readTargetSpec_ctl (items : List (Nat × DataElement F)) (r : RState3 F) (t : RTarget F) :
+    (readTargetSpec items r t).2 = .next ∨ (∃ e, (readTargetSpec items r t).2 = .error e) ∨
+      ∃ e ln, (readTargetSpec items r t).2 = .errorAt e ln := by
+  cases t with
+  | scalar x => exact readScalarSpec_ctl items r x
+  | cell name idx => exact readCellSpec_ctl items r name idx
+
+/-- the control results of a READ: on to the next statement, or an error -/
+theorem readTargetsSpec_ctl (items : List (Nat × DataElement F)) : ∀ (ts : List (RTarget F)) (r : RState3 F),
+    (readTargetsSpec items r ts).2 = .next ∨ (∃ e, (readTargetsSpec items r ts).2 = .error e) ∨
+      ∃ e ln, (readTargetsSpec items r ts).2 = .errorAt e ln
+  | [], r => Or.inl rfl
+  | t :: rest, r => by
+    have h1 := readTargetSpec_ctl items r t
+    have hsp : readTargetsSpec items r (t :: rest) =
+        match readTargetSpec items r t with
+        | (r', .next) => readTargetsSpec items r' rest
+        | x => x := rfl
+    rw [hsp]
+    generalize readTargetSpec items r t = res at h1
+    obtain ⟨r', ctl⟩ := res
+    cases ctl with
+    | next => exact readTargetsSpec_ctl items rest r'
+    | error e => exact Or.inr (Or.inl ⟨e, rfl⟩)
+    | errorAt e ln => exact Or.inr (Or.inr ⟨e, ln, rfl⟩)
+    | skipLine => rcases h1 with h | ⟨_, h⟩ | ⟨_, _, h⟩ <;> cases h
+    | jump m => rcases h1 with h | ⟨_, h⟩ | ⟨_, _, h⟩ <;> cases h
+    | stop => rcases h1 with h | ⟨_, h⟩ | ⟨_, _, h⟩ <;> cases h
+    | resume a b => rcases h1 with h | ⟨_, h⟩ | ⟨_, _, h⟩ <;> cases h
+
+/-- the side conditions of the statement give those of its targets -/
+theorem targetsOK_of {fns : List (Str × FnDefSpec F)} {fuel nesting : Nat} : ∀ (ts : List (RTarget F)),
+    ResolvedTargets fns ts → targetsDepth fns ts ≤ fuel → nesting + targetsDepth fns ts ≤ Extracted.nestingLimit →
+    ∀ t ∈ ts, TargetOK fns fuel nesting t
+  | [], _, _, _ => fun t ht => by cases ht
+  | t0 :: rest, hres, hd, hn => by
+    intro t ht
+    simp only [targetsDepth] at hd hn
+    rcases List.mem_cons.mp ht with rfl | ht
+    · cases t with
+      | scalar x => trivial
+      | cell name idx =>
+        have h1 : ResolvedL fns idx := hres.1
+        have h2 : (RTarget.cell name idx).depth fns = depthArgs fns callFuel idx := rfl
+        exact ⟨h1, by omega, by omega⟩
+    · exact targetsOK_of rest hres.2 (by omega) (by omega) t ht
+
+theorem read_ok (ts : List (RTarget F)) : StmtOK p n j (.readS ts) := by
+  intro fuel σ r pre rest after eol hS hP hE _ hcov hres hd hn
+  have hAt0 : At σ pre (.kw .Read :: (renderRTargets ts ++ rest)) := by
+    simpa only [renderS3, List.cons_append] using hP.cur
+  obtain ⟨k1, h1⟩ := next_ex hAt0
+  have hAt1 := at_mv1 hAt0 k1
+  have hst : Start σ (mv σ 1 k1) := start_mv _ _ _
+  have hrun : stmtBody (evalN fuel) σ =
+      readLoop (evalN fuel) ((pre ++ [Token.kw Kw.Read] ++ (renderRTargets ts ++ rest)).length + 1) (mv σ 1 k1) := by
+    unfold stmtBody
+    rw [bind_ok (traceHere_off hS.env.tracing)]
+    unfold dispatch
+    rw [bind_ok h1]
+    show readStatement (evalN fuel) _ = _
+    unfold readStatement
+    rw [bind_ok (lineBudget_eq hAt1.1)]
+  rw [hrun]
+  have hok : ∀ t ∈ ts, TargetOK r.fns fuel (mv σ 1 k1).nesting t :=
+    targetsOK_of ts hres hd hn
+  have hL := read_targets_refines fuel rest hE.stmtEnd ts hcov
+    ((pre ++ [Token.kw Kw.Read] ++ (renderRTargets ts ++ rest)).length + 1)
+    (mv σ 1 k1) r _ (hS.mv 1 k1) hok hAt1 (by simp only [List.length_append]; omega)
+  show Outcome3 p σ n after eol _ (readTargetsSpec (allData3 p) r ts).1 (readTargetsSpec (allData3 p) r ts).2
+  have hctl := readTargetsSpec_ctl (allData3 p) ts r
+  generalize readTargetsSpec (allData3 p) r ts = res at hL hctl
+  obtain ⟨r', ctl⟩ := res
+  cases ctl with
+  | next =>
+    obtain ⟨τ, hres', hSτ, hstτ, hAtτ⟩ := hL
+    refine ⟨τ, hres', (hst.trans hstτ).kept, hSτ.mem, ?_, Or.inl ?_⟩
+    · rw [(hst.trans hstτ).line]; exact hP.locline
+    · rw [hAtτ.2, hP.hafter]
+      simp only [renderS3, List.length_append, List.length_cons, List.length_nil]
+      omega
+  | error e => exact ⟨hL.1, hL.2.start hst⟩
+  | errorAt e ln =>
+    obtain ⟨he, σ', i, h1', h2', h3', h4'⟩ := hL
+    exact ⟨he, σ', i, h1', h2', h3', h4'⟩
+  | skipLine => rcases hctl with h | ⟨_, h⟩ | ⟨_, _, h⟩ <;> cases h
+  | jump m => rcases hctl with h | ⟨_, h⟩ | ⟨_, _, h⟩ <;> cases h
+  | stop => rcases hctl with h | ⟨_, h⟩ | ⟨_, _, h⟩ <;> cases h
+  | resume a b => rcases hctl with h | ⟨_, h⟩ | ⟨_, _, h⟩ <;> cases h
 
 end stmts
 
